@@ -7,7 +7,8 @@
 (* original code (tokens without image dropped), TRUE = repaired.          *)
 (***************************************************************************)
 EXTENDS SourceMapChain, Json
-CONSTANTS G, P, MaxR, MaxO, KeepUnmapped
+CONSTANTS G, P, MaxR, MaxO, KeepUnmapped,
+          Ranges          \* {FALSE}: ordinary original tokens only; BOOLEAN: range tokens too
 
 VARIABLES R, O, done
 vars == <<R, O, done>>
@@ -20,14 +21,14 @@ RTokens(cols, tgt) == [i \in 1..Len(cols) |->
     sc |-> IF tgt[i] < P THEN tgt[i] ELSE 0, name |-> ""]]
 OTokens(cols, tgt) == [i \in 1..Len(cols) |->
    [gl |-> 0, gc |-> cols[i], mapped |-> tgt[i][1] # "none", src |-> tgt[i][1], sl |-> 0,
-    sc |-> tgt[i][2], name |-> ""]]
+    sc |-> tgt[i][2], name |-> "", rng |-> tgt[i][3]]]
 
 IncSeqs(n, maxlen) == UNION {{s \in [1..k -> 0..(n - 1)] : \A i \in 1..(k - 1) : s[i] < s[i + 1]} : k \in 0..maxlen}
 
 Init ==
   /\ \E rc \in IncSeqs(G, MaxR) : \E rt \in [1..Len(rc) -> 0..P] :      \* target P = unmapped rewrite token
        R = RTokens(rc, rt)
-  /\ \E oc \in IncSeqs(P, MaxO) : \E ot \in [1..Len(oc) -> (Srcs \cup {"none"}) \X (0..1)] :
+  /\ \E oc \in IncSeqs(P, MaxO) : \E ot \in [1..Len(oc) -> (Srcs \cup {"none"}) \X (0..1) \X Ranges] :
        O = OTokens(oc, ot)
   /\ done = FALSE
 Next == ~done /\ done' = TRUE /\ UNCHANGED <<R, O>>
